@@ -332,11 +332,13 @@ def _reshape_split_last(E, v, shape):
     B, M = shape[-2], v.shape[-1]
     if isinstance(B, int) and B <= 0:
         return None
-    rem = C.binop("%", M, B)
-    bad = C.compare("!=", rem, 0)
-    if (bad if isinstance(bad, bool) else E.truth(bad)):
-        raise PyRaise("ValueError", f"cannot reshape array of shape {v.shape} into shape {shape}")
-    nb = T.norm_dim(C.binop("//", M, B))
+    nb = T.exact_quotient(M, B)  # M is literally B * nb (e.g. a rollout of n_envs * steps samples): keep the factor
+    if nb is None:
+        rem = C.binop("%", M, B)
+        bad = C.compare("!=", rem, 0)
+        if (bad if isinstance(bad, bool) else E.truth(bad)):
+            raise PyRaise("ValueError", f"cannot reshape array of shape {v.shape} into shape {shape}")
+        nb = T.norm_dim(C.binop("//", M, B))
 
     def fn(*o):
         return v.at(*(tuple(o[:-2]) + (C.binop("+", C.binop("*", o[-2], nb), o[-1]),)))
